@@ -29,7 +29,7 @@ Definition sh_code (p : shpc) : nat :=
 Definition acc_eqb (a b : accst) : bool :=
   match a, b with ANone, ANone | AOpen, AOpen | AClosed, AClosed => true | _, _ => false end.
 Definition sret_eqb (a b : sret) : bool :=
-  match a, b with RetServerClosed, RetServerClosed | RetDup, RetDup | RetAcceptErr, RetAcceptErr => true | _, _ => false end.
+  match a, b with RetServerClosed, RetServerClosed | RetDup, RetDup | RetAcceptErr, RetAcceptErr | RetListenErr, RetListenErr => true | _, _ => false end.
 Definition bthread_eqb (a b : bthread) : bool :=
   match a, b with
   | BSync l p, BSync l' p' =>
@@ -47,6 +47,7 @@ Definition bthread_eqb (a b : bthread) : bool :=
       match p, p' with CoServe, CoServe | CoDone, CoDone => true | CoWait c, CoWait c' => Nat.eqb c c' | _, _ => false end
   | BListen l b, BListen l' b' => andb (Nat.eqb l l') (Bool.eqb b b')
   | BLClose l b, BLClose l' b' => andb (Nat.eqb l l') (Bool.eqb b b')
+  | BRetry l b, BRetry l' b' => andb (Nat.eqb l l') (Bool.eqb b b')
   | _, _ => false
   end.
 Fixpoint list_eqb {A} (f : A -> A -> bool) (a b : list A) : bool :=
@@ -67,7 +68,7 @@ Definition obs_state (o : bobs) : bst :=
 Definition obs_holds (o : bobs) : bool :=
   let s := obs_state o in
   andb (closes_at_most_once s)
-  (andb (forallb (fun r => match r with RetServerClosed | RetDup => true | RetAcceptErr => false end) (bo_late o))
+  (andb (forallb (fun r => match r with RetServerClosed | RetDup | RetListenErr => true | RetAcceptErr => false end) (bo_late o))
    (if shutdown_returned s
     then andb (bctx s) (andb (all_channels_closed_once s) (andb (no_open_acceptor s) (andb (sync_threads_ok s) (chan_threads_done s))))
     else true)).
